@@ -38,12 +38,13 @@ ASSUMPTIONS = [
 
 SHIPPED_NAMES = {"meter", "kilo", "second"}
 SHIPPED_SYMS = {"m", "k", "s", "d", "da", "L"}
-NAMES = ["vfa", "vfb", "vfc", "vfd", "meter", "kilo", "length", "second", "vf e", "", "va", "vb"]  # "va", "vb" are also symbols
+NAMES = ["vfa", "vfb", "vfc", "vfd", "meter", "kilo", "length", "second", "vf e", "", "va", "vb",  # "va", "vb" are also symbols
+         "vfe\u0301talon", "\u212bvf", "vf\u2126", "vf\ufb01"]  # names that Unicode normalisation would change
 SYMS = ["va", "vb", "vc", "vd", "m", "k", "L", "s", "v x", "", "d", "da"]
 MODS = [m for m in SHIPPED_MODULES]
 LOOKUPS = ["va", "vb", "vc", "vd", "kva", "kvb", "mvc", "hh", "ha", "cd", "nmi", "min.", "Pa", "TR", "dam", "kt", "dm", "hm", "vfa", "vfb"]
 OPS = ["lookup", "anon_dim", "name_dim_ctor", "derive_dim", "anon_prefix", "name_prefix", "define_unit", "anon_unit", "derive_unit",
-       "alias", "alias_bad", "import", "define_dim", "scale", "overlap"]
+       "alias", "alias_bad", "import", "define_dim", "scale", "overlap", "anon_dim_doc"]
 # the "overlap" op: two prefixes and two units of the history's own whose symbols overlap, declared
 # one at a time in generated order -- "vqxy" is vq+xy or vqx+y depending on what exists
 OVERLAP_TEXTS = ["vqxy", "vqy", "vqxxy"]
@@ -58,7 +59,7 @@ def budget(tier):
 
 
 def strategy(tier):
-    OP = st.sampled_from(OPS + ["lookup", "scale", "anon_prefix", "name_prefix", "anon_dim", "derive_dim", "alias", "define_unit", "derive_unit", "import", "overlap", "overlap"])
+    OP = st.sampled_from(OPS + ["lookup", "scale", "anon_prefix", "name_prefix", "anon_dim", "derive_dim", "alias", "define_unit", "derive_unit", "import", "overlap", "overlap", "anon_dim_doc", "define_dim"])
     I = st.integers(0, 999)
     step = st.tuples(OP, I, I, I, I).map(list)
     return st.builds(lambda steps: {"steps": steps}, st.lists(step, min_size=4, max_size=25))
@@ -72,6 +73,14 @@ def enumerate_cases(tier):
     # declare it as a symbol
     n = len(LOOKUPS)
     cases.append({"steps": [["import", MODS.index("si"), 0, 0, 0]] + [["lookup", i, (i + 1) % n, 0, 0] for i in range(0, n, 2)]})
+    # a unit whose *name* is another unit's *symbol* ("va", "vb" are in both pools), in both orders
+    # and through define / derive / alias
+    for first, second in ((["define_unit", 0, 0, 0, 0], ["define_unit", 10, 2, 0, 0]), (["define_unit", 10, 2, 0, 0], ["define_unit", 0, 0, 0, 0]),
+                          (["define_unit", 1, 1, 0, 0], ["anon_unit", 0, 0, 1, 1]), (["define_unit", 11, 3, 0, 0], ["define_unit", 2, 1, 0, 0])):
+        cases.append({"steps": [first, second, ["lookup", 0, 1, 0, 0]]})
+        cases.append({"steps": [first, ["anon_unit", 0, 0, 2, 1], ["derive_unit", 11, 3, 0, 0], second, ["alias", 10, 2, 0, 0]]})
+    # a dimension that arrives in a document, then the definition of a new fundamental dimension
+    cases.append({"steps": [["anon_dim_doc", 1, 0, 0, 0], ["define_dim", 0, 0, 0, 0], ["anon_dim_doc", 2, 0, 3, 1], ["define_dim", 1, 1, 0, 0]]})
     # overlapping symbols of the history's own, declared in every order with look-ups in between
     for perm in range(24):
         cases.append({"steps": [["overlap", 0, 0, perm, 0]]})
@@ -176,6 +185,12 @@ class Run:
     def check(self, out, when):
         m = self.m
         for name, obj in self.decl["Unit"]["name"].items():
+            try:
+                public = m.Unit.named(name)
+            except Exception:  # noqa
+                public = None
+            if public is not obj:
+                out.fail("C19:binding:Unit:named()", f"{when}: unit name {name!r} was declared for {obj!r} but Unit.named({name!r}) gives {public!r}")
             if m.Unit._by_name.get(name) is not obj or name not in getattr(obj, "names", ()):
                 out.fail("C19:binding:Unit:name", f"{when}: unit name {name!r} was declared for {obj!r} but resolves to {m.Unit._by_name.get(name)!r} / object reports {getattr(obj, 'names', None)}")
         for sym, obj in self.decl["Unit"]["symbol"].items():
@@ -314,6 +329,16 @@ def run_case(case) -> core.Outcome:
             if op == "anon_dim":
                 dim = m.Length ** (c % 5 + 2) / m.Time ** (d % 4)
                 dims.append(dim)
+            elif op == "anon_dim_doc":
+                # a dimension this process has never computed arrives in a document (JSON
+                # object, or a pickle written elsewhere): anonymous construction by another door
+                exps = list(m.Length.exponents)
+                exps[1 % len(exps)] = c % 7 + 5
+                exps[2 % len(exps)] = -(d % 5) - 3
+                k = a % 3 + 1
+                dim = m.Dimension.__from_json__({"__measured__": "Dimension", "name": None, "symbol": None, "exponents": [x * k for x in exps]})
+                dims.append(dim)
+                nontrivial_keys.add(("anon_dim_doc",))
             elif op == "name_dim_ctor":
                 # constructor given a name for a dimension that may already exist anonymously
                 target = dims[c % len(dims)]
